@@ -94,6 +94,7 @@ include hs
 
 theorem battrParse_nip (attrs : Str) : NIP b (battrParse rec env attrs) := by
   have hr := replaceInline_nip rec env hs
+  have hm := macrosRender_nip rec env hs
   cases b <;> (unfold battrParse; nip_go)
 
 theorem verifyMacroLine_nip (mt : Match) (r : Reader) : NIP b (verifyMacroLine rec env mt r) := by
